@@ -22,4 +22,19 @@ void c_trace(void)
   __CPROVER_assert(vp_tr[0].line > 0 && vp_tr[0].file != 0, "[C17] POST tracer.the_record_carries_the_expectation_location");
   __CPROVER_assert(0, "REACH! c_trace");
 }
+/* null argument and null returned value in a trace record: printed without touching the null pointer (C18) */
+_Bool nondet_bool(void);
+void c_trace_null(void)
+{
+  _Bool isnull = nondet_bool(); struct OBS o;
+  C17_TRACE_NULL(isnull, &o);
+  __CPROVER_assert(vp_exc == 0 && vp_rep_n == 0 && !vp_terminated && o.ret == 1, "[C17,C08] POST tracer_null.the_call_is_accepted_and_returns_the_argument_itself");
+  __CPROVER_assert(vp_tr_n == 1 && !vp_tr[0].msg.overflow, "[C17] POST tracer_null.exactly_one_record");
+  /* the untagged / [C18]-tagged model check NULLSTR states the null-safety: operator<< is never given the null pointer */
+  int n_str = 0; const struct vp_string *m = &vp_tr[0].msg;
+  for (int k = 0; k < VP_TOK_CAP; k++) if (k < m->n && m->t[k].kind == VP_T_CSTR && m->t[k].p != 0 && ((const char *)m->t[k].p)[0] == 'x') n_str++;
+  if (!isnull) __CPROVER_assert(n_str == 2, "[C17] POST tracer_null.a_non_null_string_is_printed_as_argument_and_as_returned_value");
+  __CPROVER_assert(isnull, "REACH tracer_null.non_null"); __CPROVER_assert(!isnull, "REACH tracer_null.null");
+  __CPROVER_assert(0, "REACH! c_trace_null");
+}
 int main(void) { VP_ENTRY(); return 0; }
